@@ -1564,6 +1564,19 @@ func c10RunConfig(c *Ctx, g *c10Cfg, nLists int) {
 		fcfg.SlowLocal = 15 * time.Millisecond
 		r.Obs("cfg:backend-with-two-data-centers", 1)
 	}
+	// every fourth configuration the proxy is given two contact points and the first of them fails at the last step of the
+	// initial connect: it completes the handshake and answers both system tables, but reports an rpc_address for itself
+	// under which the proxy cannot find it among the hosts.  The proxy moves on to the second contact point; every
+	// backend-derived fact it presents is that node's (another data center, release), none the node's it gave up
+	if g.Idx%4 == 3 {
+		fcfg.Hosts = 2
+		fcfg.SlowLocal = 0
+		fcfg.ContactHosts = []int{1, 2}
+		fcfg.HostAdvertised = map[int]string{1: "10.254.254.1"}
+		fcfg.HostDCs = map[int]string{1: "dc_of_the_contact_point_given_up"}
+		fcfg.HostRelease = map[int]string{1: "3.0.24"}
+		r.Obs("cfg:first-contact-point-fails-at-its-last-step", 1)
+	}
 	cluster, err := fakecass.New(fcfg)
 	if err != nil {
 		r.Inconc(fmt.Sprintf("cfg %d: cannot start backend: %v", g.Idx, err))
@@ -1575,6 +1588,19 @@ func c10RunConfig(c *Ctx, g *c10Cfg, nLists int) {
 	bed, ring, ok := x.startInstance(cluster, prim)
 	if !ok {
 		return
+	}
+	if len(fcfg.ContactHosts) == 2 {
+		tried := false
+		for _, e := range fcfg.Log.Snapshot() {
+			if e.Src == "backend" && e.K == "recv" && e.Host == 1 && primitive.OpCode(e.Op) == primitive.OpCodeRegister {
+				tried = true
+			}
+		}
+		if !tried {
+			r.Inconc(fmt.Sprintf("cfg %d: the first contact point never saw the proxy's control connection", g.Idx))
+		} else {
+			r.Obs("first_contact_point_tried_and_given_up", 1)
+		}
 	}
 	closeBed := func(b *px.Bed, ks ...*c10Client) {
 		for _, k := range ks {
